@@ -114,6 +114,10 @@ var compounds = []compound{
 	{"fnv", "func", fm(`$ = func(a...){ return a }`), "", -1},
 	{"fnmut", "func", fm("$ = func(){\nhcnt[0] = hcnt[0] + 1\nhdone <- 1\nreturn hcnt[0]\n}"), "", -1},
 	{"fnthrow", "func", fm(`$ = func(){ throw "boom" }`), "", -1},
+	{"fnrec", "func", fm("$ = func(a...){\nhacc += [a]\nreturn len(a)\n}"), "", -1},
+	// Go values whose types have methods but are neither structs nor pointers to structs
+	{"named_dur", "named", fm(`$ = hdur()`), "", -1},
+	{"named_strs", "named", fm(`$ = hstrs()`), "", -1},
 	{"st_val", "struct", fm("$ = make(struct{A int64, B string})\n$.A = 3\n$.B = \"s\""), "", -1},
 	{"st_iface", "struct", fm("$ = make(struct{A interface, B []int64})\n$.A = \"x\""), "", -1},
 	{"mod", "mod", fm("module $ {\na = 1\nb = \"s\"\nfunc f() { return 2 }\n}"), "", -1},
@@ -138,7 +142,7 @@ func init() {
 	kindsByCat["scalar"] = scalarKinds
 	kindsByCat["indexable"] = append(append(append([]string{}, kindsByCat["slice"]...), kindsByCat["map"]...), "str")
 	kindsByCat["iterable"] = append(append(append([]string{}, kindsByCat["slice"]...), kindsByCat["map"]...), "ch_closed", "ch_closed_empty")
-	kindsByCat["hasmember"] = append(append(append([]string{}, kindsByCat["map"]...), kindsByCat["struct"]...), "mod", "pt_struct", "mod")
+	kindsByCat["hasmember"] = append(append(append([]string{}, kindsByCat["map"]...), kindsByCat["struct"]...), "mod", "pt_struct", "mod", "named_dur", "named_strs", "named_dur", "named_strs")
 	kindsByCat["settable"] = append(append([]string{}, kindsByCat["map"]...), "mod", "pt_struct", "pt_struct", "mod")
 	kindsByCat["truthy"] = []string{"true", "false", "int", "float", "str", "nil", "sl_empty", "sl_ints", "mp_empty", "mp_str", "pt_int0", "pt_int5", "pt_bool", "pt_str", "pt_nil", "sl_nil", "mp_nil"}
 	kindsByCat["key"] = []string{"str", "int", "str", "true", "float"}
@@ -388,7 +392,7 @@ type template struct {
 }
 
 var binOps = []string{"+", "-", "*", "/", "%", "&", "|", "<<", ">>", "==", "!=", "<", "<=", ">", ">=", "&&", "||"}
-var memberNames = []string{"k", "a", "A", "B", "f", "zz", "m"}
+var memberNames = []string{"k", "a", "A", "B", "f", "zz", "m", "String", "Len", "Seconds"}
 
 var templates = []template{
 	{name: "un", weight: 5, prefs: []string{"num"}, ops: []string{"-", "!", "^"}},
@@ -418,6 +422,8 @@ var templates = []template{
 	{name: "setmember", weight: 3, prefs: []string{"settable", "scalar"}},
 	{name: "setderef", weight: 2, prefs: []string{"ptr", "scalar"}},
 	{name: "defer", weight: 2, prefs: []string{"func"}},
+	{name: "deferspread", weight: 2, prefs: []string{"func", "sliceish"}},
+	{name: "gospread", weight: 1, prefs: []string{"func", "sliceish"}},
 	{name: "go", weight: 2, prefs: []string{"func"}},
 	{name: "repeat", weight: 1, prefs: []string{"num"}},
 	{name: "typedlit", weight: 2, prefs: []string{"scalar"}, ops: []string{"[]int64", "[]string", "[]interface", "[]float64", "mapval", "mapkey", "[][]int64"}},
@@ -451,6 +457,17 @@ func (c Case) tname() string {
 func fixSlots(c *Case) {
 	s := c.Slots
 	switch c.T {
+	case "go":
+		// a callee with side effects must be joined: fnmut signals on hdone, fnrec does not
+		if s[0].V.K == "fnrec" {
+			s[0].V = Val{K: "fnmut"}
+		}
+	case "gospread":
+		// whether the spread call is accepted is decided at the go statement; what the goroutine
+		// does afterwards is not joined here, so the callee must not touch shared state
+		if s[0].V.K == "fnrec" || s[0].V.K == "fnmut" {
+			s[0].V = Val{K: "fn2"}
+		}
 	case "forin":
 		// an open channel would block after it is drained
 		switch s[0].V.K {
@@ -494,6 +511,7 @@ func genCase(t *rapid.T) Case {
 		c.Op = pick(t, "op", tp.ops)
 	}
 	prefs := tp.prefs
+	nearPair := false
 	switch c.T {
 	case "bin":
 		switch c.Op {
@@ -501,6 +519,13 @@ func genCase(t *rapid.T) Case {
 			prefs = []string{"truthy", "truthy"}
 		case "==", "!=":
 			prefs = []string{"any", "any"}
+			if rapid.IntRange(0, 3).Draw(t, "nearpair") == 0 {
+				nearPair = true
+			}
+		case "<", "<=", ">", ">=":
+			if rapid.IntRange(0, 3).Draw(t, "nearpair") == 0 {
+				nearPair = true
+			}
 		case "+":
 			if rapid.Bool().Draw(t, "plus-slices") {
 				prefs = []string{"sliceish", "any"}
@@ -526,6 +551,15 @@ func genCase(t *rapid.T) Case {
 	c.Slots = make([]Slot, len(prefs))
 	for i, p := range prefs {
 		c.Slots[i].V = genVal(t, p)
+	}
+	if nearPair {
+		// neighbouring integers, half of them beyond 2^53 where they collapse to one float64
+		v := rapid.Int64Range(-3, 3).Draw(t, "nearsmall")
+		if rapid.Bool().Draw(t, "nearhuge") {
+			v = pick(t, "nearbase", []int64{1 << 53, 1<<53 + 1, -(1 << 53), 1 << 54, 1<<60 + 1, 1 << 62, math.MaxInt64 - 1, math.MinInt64 + 1})
+		}
+		c.Slots[0].V = Val{K: "int", I: v}
+		c.Slots[1].V = Val{K: "int", I: v + rapid.Int64Range(-1, 1).Draw(t, "neardelta")}
 	}
 	fixSlots(&c)
 	any := false
@@ -722,6 +756,10 @@ func body(c Case, e []string) string {
 		return "*" + e[0] + " = " + e[1]
 	case "defer":
 		return "defer " + e[0] + "(" + args(c.N) + ")\nr = 1"
+	case "deferspread":
+		return "defer " + e[0] + "(" + e[1] + "...)\nr = 1"
+	case "gospread":
+		return "go " + e[0] + "(" + e[1] + "...)"
 	case "go":
 		s := "go " + e[0] + "(" + args(c.N) + ")"
 		if c.Slots[0].V.K == "fnmut" {
@@ -766,6 +804,8 @@ func newEnv() *env.Env {
 	e.Define("gi", func(a int64) int64 { return a + 1 })
 	e.Define("gs", func(s []interface{}) int64 { return int64(len(s)) })
 	e.Define("gv", func(xs ...interface{}) []interface{} { return append([]interface{}{int64(len(xs))}, xs...) })
+	e.Define("hdur", func() interface{} { return 90 * time.Second })
+	e.Define("hstrs", func() interface{} { return sort.StringSlice{"b", "a", "c"} })
 	e.Define("gsum", func(xs ...int64) int64 {
 		var s int64
 		for _, x := range xs {
